@@ -192,6 +192,12 @@ def case_strategy():
         # fan-out: N call sites in the first object to N distinct functions of the last one: N thunks in one
         # block, 12 bytes apart, so that every 4-aligned page offset (incl. the last word of a page) is hit
         "fan": st.sampled_from([0, 0, 1100, 1400]),
+        # straddle: (callee object MiB, caller object MiB, k): callee first, one filler, caller last, sized so
+        # that the object *starts* (and ends) are < 126 MiB apart while the call site (end of the caller) and
+        # its target (start of the callee) are > 128 MiB apart: whether a thunk is needed depends on the sizes
+        # of both end objects, not only on their distance.
+        "straddle": st.one_of(st.none(), st.none(), st.none(),
+                              st.tuples(st.integers(3, 8), st.integers(3, 8), st.integers(0, 24)).map(list)),
     })
 
 
@@ -220,6 +226,15 @@ def build_plan(case):
     objs = normalise(case)
     fan = case.get("fan", 0)
     perm = link_order(case, len(objs))
+    if case.get("straddle"):
+        a, b, k = case["straddle"]
+        est = 126 * MIB - 64 * 1024 - k * 80 * 1024          # max(start distance, end distance): just under the window
+        filler = (est - max(a, b) * MIB) & ~3
+        objs = [{"size": a * MIB, "jitter": 0, "nfuncs": 1, "sites": []},
+                {"size": filler, "jitter": 0, "nfuncs": 1, "sites": [("mid", "bl", 128, 0, False)]},
+                {"size": b * MIB, "jitter": 0, "nfuncs": 1, "sites": [("end", "bl", 0, 0, False), ("start", "b", 0, 0, False)]}]
+        perm = [0, 1, 2]
+        fan = 0
     if fan:
         # caller first, callee last in link order
         objs.append({"size": 64 * 1024 + 4 * fan, "jitter": 0, "nfuncs": 1, "sites": [], "fan": "caller"})
@@ -348,6 +363,11 @@ def known_domain(case):
         _KNOWN = {e["signature"] for e in core.load_known("C11") if e["status"] == "known"}
     if "inproc" in case or "link-fails:branch-out-of-range" not in _KNOWN:
         return None
+    return in_known_domain(case)
+
+
+def in_known_domain(case):
+    """The domain predicate itself, irrespective of the finding's status."""
     objs, perm, _, sites = build_plan(case)
     sizes = [objs[i]["size"] for i in perm]
     asg, start, end = placement_model(sizes, 126 * MIB)
@@ -424,7 +444,9 @@ class C11(Check):
                 raise Violation("crash", f"wild crashed: {err[-400:]}", None)
             low = err.lower()
             if "out of range" in low or "thunk" in low or "outside of bounds" in low:
-                raise Violation("link-fails:branch-out-of-range",
+                # Outside the known finding's exact domain the same diagnostic is a different defect.
+                sig = "link-fails:branch-out-of-range" if in_known_domain(case) else "link-fails:thunk-not-allocated"
+                raise Violation(sig,
                                 f"lld links this case ({lthunk} branches through thunks); wild fails: {err[-500:]}",
                                 {"sizes_mib": [round(objs[i]['size'] / MIB, 2) for i in perm]})
             raise Discard("wild fails to link: " + err[-80:])
@@ -445,7 +467,7 @@ class C11(Check):
             return "K" if s < MIB else "M" if s < 16 * MIB else "H"
         key = "".join(szc(objs[i]["size"]) for i in perm) + "|" + ",".join(f"{s[1]}{s[3]}>{s[4]}" for s in sites if not s[0].startswith("fsite_"))
         return {"nontrivial": thunk >= 1 and direct >= 1, "key": key,
-                "classes": [f"objects_{n}", f"thunks_{min(thunk, 6) // 2 * 2}+", "gc" if case["gc"] else "nogc", "fan" if case.get("fan") else "nofan",
+                "classes": [f"objects_{n}", f"thunks_{min(thunk, 6) // 2 * 2}+", "gc" if case["gc"] else "nogc", "fan" if case.get("fan") else "nofan", "straddle" if case.get("straddle") else "nostraddle",
                             f"total_{sum(o['size'] for o in objs) // (64 * MIB) * 64}MiB+"],
                 "counters": {"sites": len(sites), "thunked": thunk, "direct": direct, "lld_thunked": lthunk}}
 
